@@ -128,6 +128,47 @@ func (p Prog) mark(m string) Prog {
 	return p
 }
 
+// values visits every value description of a program.
+func (p Prog) values(f func(V)) {
+	var walkV func(v V)
+	walkV = func(v V) {
+		f(v)
+		for _, e := range v.L {
+			if v.T == "anys" || v.T == "map" || v.T == "props" {
+				walkV(e)
+			}
+		}
+	}
+	var walkX func(x X)
+	walkX = func(x X) {
+		if x.V != nil {
+			walkV(*x.V)
+		}
+		for _, a := range x.A {
+			walkX(a)
+		}
+	}
+	if p.Where != nil {
+		walkX(*p.Where)
+	}
+	for _, r := range p.Ret {
+		walkX(r)
+	}
+	for _, o := range p.Order {
+		walkX(o.X)
+	}
+	for _, u := range p.Upd {
+		if u.V != nil {
+			walkV(*u.V)
+		}
+		for _, pe := range u.Pat {
+			if pe.Props != nil {
+				walkV(*pe.Props)
+			}
+		}
+	}
+}
+
 // buildQuery produces the AST of a case ("" skip = ok).
 func buildQuery(c Case, marker string) (q *cypher.RegularQuery, skip string) {
 	if c.Prog == nil {
@@ -545,6 +586,24 @@ func oracle(c Case) (evid.Info, error) {
 	if ment.nparams > 0 {
 		info.Classes = append(info.Classes, "query-has-parameters")
 	}
+	if c.Prog != nil {
+		// the builders embed their values in the model
+		embedded := map[string]bool{}
+		c.Prog.values(func(v V) {
+			embedded["embedded:"+v.T] = true
+			if v.supported() {
+				embedded["embedded-supported"] = true
+			} else {
+				embedded["embedded-unsupported"] = true
+			}
+		})
+		tags := make([]string, 0, len(embedded))
+		for tag := range embedded {
+			tags = append(tags, tag)
+		}
+		sort.Strings(tags)
+		info.Classes = append(info.Classes, tags...)
+	}
 	mp := c.Mapper
 	if mp == "" {
 		mp = "full"
@@ -559,23 +618,23 @@ func oracle(c Case) (evid.Info, error) {
 // ---------------------------------------------------------------------------------------------
 
 func TestC05Grammar(t *testing.T) {
-	evid.Prop(t, "g4", evid.R.N(1500, 9000), genG4, oracle)
+	evid.Prop(t, "g4", evid.R.N(1500, 4000), genG4, oracle)
 }
 
 func TestC05Mutated(t *testing.T) {
-	evid.Prop(t, "mut", evid.R.N(2000, 12000), genMut, oracle)
+	evid.Prop(t, "mut", evid.R.N(2000, 6000), genMut, oracle)
 }
 
 func TestC05Typed(t *testing.T) {
-	evid.Prop(t, "cy", evid.R.N(1200, 8000), genCy, oracle)
+	evid.Prop(t, "cy", evid.R.N(1200, 4000), genCy, oracle)
 }
 
 func TestC05Builder(t *testing.T) {
-	evid.Prop(t, "builder", evid.R.N(1200, 8000), genBuilder("builder", false), oracle)
+	evid.Prop(t, "builder", evid.R.N(1200, 4000), genBuilder("builder", false), oracle)
 }
 
 func TestC05BuilderModel(t *testing.T) {
-	evid.Prop(t, "bmodel", evid.R.N(1000, 6000), genBuilder("bmodel", true), oracle)
+	evid.Prop(t, "bmodel", evid.R.N(1000, 3000), genBuilder("bmodel", true), oracle)
 }
 
 // every corpus query as is: without parameters map, and with values for its parameters
